@@ -9,9 +9,10 @@ specification of the queue kind.  Nothing of pymtl3 is imported, elaborated or s
 """
 import ast
 import itertools
+import re
 
-from sa.astutil import norm, walk_no_nested
-from sa.c17_util import BV, Tok, TypeVal, Sim, Elaborator, ModelFault, Inst, Sig, signature
+from sa.astutil import norm, walk_no_nested, guards_of, preceding_stmts
+from sa.c17_util import BV, Tok, TypeVal, Sim, Elaborator, ModelFault, Inst, Sig, signature, ClassRef
 from sa.errors import AnalysisError
 from sa.loader import Repo, Module
 from sa.minieval import Evaluator
@@ -28,6 +29,8 @@ RF = 'pymtl3/stdlib/basic_rtl/register_files.py'
 ARITH = 'pymtl3/stdlib/basic_rtl/arithmetics.py'
 SRI = 'pymtl3/stdlib/ifcs/send_recv_ifcs.py'
 GGI = 'pymtl3/stdlib/ifcs/get_give_ifcs.py'
+SQA = 'pymtl3/stdlib/stream/queue_adapters.py'
+SFL = 'pymtl3/stdlib/stream/fl.py'
 
 EXPLANATION = (
     "Static analysis of the library queues (stdlib/queues/queues.py, stdlib/stream/queues.py, enrdy_queues.py, "
@@ -69,6 +72,18 @@ EXPLANATION = (
     "R-C17-copy decides that every method of the CL queues and of the CL/FL/RTL adapters in send_recv_ifcs.py / "
     "get_give_ifcs.py that keeps an incoming message beyond the call (parameter or alias assigned to an attribute / element "
     "of the component or inserted into one of its containers) keeps a private copy (clone_deepcopy / deepcopy / .clone()). "
+    "R-C17-connect interprets the isinstance(other, RecvIfcRTL) branch of GiveIfcRTL.connect (the adapter inserted by "
+    "connect( q1.deq, q2.enq )) as construct-time code over a giver and a receiver interface and evaluates the netlist, And "
+    "component included, for the four ready valuations: both enables = giver.rdy AND receiver.rdy, receiver.msg = giver.ret. "
+    "R-C17-buffer decides the one-entry message buffers (attribute initialised to None that is stored and delivered) of the "
+    "adapter classes in send_recv_ifcs.py, get_give_ifcs.py, stream/queue_adapters.py, stream/fl.py as a typestate: every "
+    "test of the buffer has the same value for a stored message that is truthy and one that is falsy (emptiness by `is "
+    "None`, evaluated over all valuations of the other atoms); a message is stored only into an empty buffer -- rdy guard of "
+    "a non-blocking method false for every full buffer, a blocking method stores directly after a `while <full>: yield` "
+    "loop, an update block captures only under conditions that (together with what en implies: the rdy this class drives, or "
+    "the condition under which this class raises en) imply `empty`; the rdy driven from the buffer equals `empty`; no "
+    "unconditional clear in an update block; every port used on a declared RTL interface exists and every called function is "
+    "defined or imported. "
     "Every rule carries an embedded defective example that must be flagged on every run. "
     "Known finding: BypassQueue2RTL (chain of two 1-entry bypass queues) has enq.rdy low with one of two entries occupied. "
     "NOT decided: FIFO order / no loss over arbitrary histories and arbitrary capacities (only the one-cycle step relation "
@@ -1367,6 +1382,508 @@ def rule_copy(repo):
     return r
 
 
+# ---------------------------------------------------------------------------
+# the And adapter inserted by connect( giver, receiver )
+_CONNECT_PROBE = '''
+class GiveIfcRTL( CalleeIfcRTL ):
+  def construct( s, Type ):
+    super().construct( en=True, rdy=True, MsgType=None, RetType=Type )
+  def connect( s, other, parent ):
+    if isinstance( other, RecvIfcRTL ):
+      connect( s.ret, other.msg )
+      m = And( Bits1 )
+      connect_pairs( m.in0, s.rdy, m.in1, s.rdy, m.out, s.en, m.out, other.en )    # planted: receiver's rdy ignored
+      return True
+    return False
+'''
+
+
+def _connect_adapter(repo, mod, clsname, othername, r):
+    """interpret the isinstance(other, <othername>) branch of <clsname>.connect as construct-time code over a giver
+    and a receiver interface instance and evaluate the resulting netlist; returns a list of (construct, message)"""
+    cls = mod.get_class(clsname)
+    meths = mod.methods(clsname)
+    if 'connect' not in meths:
+        raise AnalysisError(f"anchor vanished: {clsname}.connect in {mod.rel}")
+    f = meths['connect']
+    if len(f.args.args) != 3:
+        raise AnalysisError(f"{clsname}.connect signature outside the model")
+    me, other, parent = (a.arg for a in f.args.args)
+    branch = None
+    for st in f.body:
+        cur = st
+        while isinstance(cur, ast.If):
+            t = cur.test
+            if isinstance(t, ast.Call) and norm(t.func) == 'isinstance' and len(t.args) == 2 and norm(t.args[0]) == other \
+                    and norm(t.args[1]) == othername:
+                branch = cur.body
+                break
+            cur = cur.orelse[0] if len(cur.orelse) == 1 else None
+        if branch:
+            break
+    if branch is None:
+        raise AnalysisError(f"anchor vanished: {clsname}.connect has no branch for {othername}")
+
+    def bookkeeping(st):
+        # naming of the inserted component on the parent, the instance counter, the result
+        names = {n.id for n in ast.walk(st) if isinstance(n, ast.Name)}
+        if isinstance(st, ast.Return):
+            return True
+        if isinstance(st, ast.If) and isinstance(st.test, ast.Call) and norm(st.test.func) == 'hasattr' and parent in names:
+            if any(isinstance(n, ast.Call) and norm(n.func) in ('connect', 'connect_pairs') for n in ast.walk(st)):
+                raise AnalysisError(f"{clsname}.connect: connection inside the naming bookkeeping")
+            return True
+        if isinstance(st, ast.AugAssign) and isinstance(st.target, ast.Attribute) and norm(st.target.value) == parent:
+            return True
+        return False
+    elab = Elaborator(repo)
+    rother = repo.resolve(mod, othername)
+    if rother is None or not isinstance(rother[1], ast.ClassDef):
+        raise AnalysisError(f"anchor vanished: {othername} cannot be resolved from {mod.rel}")
+
+    def make_env(e, nl):
+        giver = e.instantiate(nl, ClassRef(mod, cls), [D], {})
+        recv = e.instantiate(nl, ClassRef(rother[0], rother[1]), [D], {})
+        return {other: recv, parent: Inst(None, None, False)}, giver
+    out = []
+    try:
+        nl, env = elab.run_snippet(mod, cls, branch, make_env, me, skip=bookkeeping)
+        giver, recv = nl.top, env[other]
+        g = lambda inst, k: inst.attrs[k] if isinstance(inst.attrs.get(k), Sig) else \
+            (_ for _ in ()).throw(AnalysisError(f"anchor vanished: port {k} of {inst.clsname}"))
+        tok = Tok('M')
+        for grdy, rrdy in itertools.product((0, 1), repeat=2):
+            sim = Sim(nl, {}, {g(giver, 'rdy'): BV(grdy, 1), g(recv, 'rdy'): BV(rrdy, 1), g(giver, 'ret'): tok}, 0)
+            r.evaluations += 1
+            gen, ren, msg = _v(sim.read(g(giver, 'en'))), _v(sim.read(g(recv, 'en'))), sim.read(g(recv, 'msg'))
+            want = grdy & rrdy
+            if (gen, ren) != (want, want):
+                out.append(('shared enable', f"giver.rdy={grdy} receiver.rdy={rrdy}: giver.en={gen} receiver.en={ren}; the shared "
+                            f"enable must be giver.rdy AND receiver.rdy = {want} (otherwise the giver dequeues a message the "
+                            f"receiver cannot accept, or the receiver accepts a message that was not given)"))
+            if msg != tok:
+                out.append(('message path', f"receiver.msg carries {msg}, must be the giver's ret"))
+    except ModelFault as ex:
+        out.append(('adapter netlist', str(ex)))
+    return out
+
+
+def rule_connect(repo):
+    r = RuleResult('R-C17-connect', "the adapter that connect( giver.deq, receiver.enq ) inserts between an en/rdy giver and an "
+                                    "en/rdy receiver: shared enable = giver.rdy AND receiver.rdy on both sides, receiver.msg = "
+                                    "giver.ret (the branch of GiveIfcRTL.connect is interpreted as construct-time code and the "
+                                    "netlist, including the And component, is evaluated for the four ready valuations)")
+    m = repo.mod(GGI)
+    src = repo.src(GGI)
+    # embedded positive example: the same module with the connect method replaced by a defective one
+    cut = src.index('class GiveIfcRTL')
+    end = src.index('class GetIfcFL')
+    pm = Module(repo, GGI, src[:cut] + _CONNECT_PROBE + '\n' + src[end:])
+    if not any(k == 'shared enable' for k, _ in _connect_adapter(repo, pm, 'GiveIfcRTL', 'RecvIfcRTL', RuleResult('probe', ''))):
+        raise AnalysisError("R-C17-connect: the embedded positive example was not flagged")
+    bad = _connect_adapter(repo, m, 'GiveIfcRTL', 'RecvIfcRTL', r)
+    line = m.get_class('GiveIfcRTL').lineno
+    for aspect in ('shared enable', 'message path', 'adapter netlist'):
+        msgs = [x for k, x in bad if k == aspect]
+        if msgs:
+            r.bad(m, 'GiveIfcRTL.connect', f"{aspect} of the giver/receiver adapter", msgs[0], line)
+        elif aspect != 'adapter netlist':
+            r.ok(m, 'GiveIfcRTL.connect', f"{aspect} of the giver/receiver adapter")
+    r.require_floor(2)
+    return r
+
+
+# ---------------------------------------------------------------------------
+# one-entry message buffers of the adapters (typestate: full -> store forbidden, tests by `is None` only)
+class _Msg:
+    """a stored message whose truth value is `truth` (a Bits message of value 0 is falsy)"""
+    def __init__(self, truth): self.truth = truth
+    def __bool__(self): return self.truth
+    def __repr__(self): return f"<message, {'truthy' if self.truth else 'falsy (value 0)'}>"
+
+
+FULLS = (_Msg(True), _Msg(False))
+BUFFER_FILES = (SRI, GGI, SQA, SFL)
+_BUFFER_PROBE = '''
+class ProbeAdapter( Component ):
+  @non_blocking( lambda s: not s.entry )                 # planted: truthiness instead of `is None`
+  def enq( s, msg ):
+    s.entry = clone_deepcopy( msg )
+  def push( s, msg ):
+    if s.entry is not None:                              # planted: waits once, not until empty
+      greenlet.getcurrent().parent.switch(0)
+    s.entry = clone_deepcopy( msg )
+  @non_blocking( lambda s: s.entry is not None )
+  def deq( s ):
+    ret = s.entry
+    s.entry = None
+    return ret
+  def construct( s, Type ):
+    s.recv = RecvIfcRTL( Type )
+    s.entry = None
+    @update_once
+    def up_rdy():
+      s.recv.rdy @= (s.entry is not None)                # planted: ready when full
+    @update_once
+    def up_msg():
+      if s.recv.val:                                     # planted: captures while full
+        s.entry = clone_deepcopy( s.recv.msg )
+'''
+
+
+def _is_none(e):
+    return isinstance(e, ast.Constant) and e.value is None
+
+
+def _buf_eval(expr, selfname, buf, entry, atoms):
+    """value of a test expression with the buffer holding `entry` and the other signals / names valued by `atoms`"""
+    def leaf(e):
+        if isinstance(e, ast.Attribute) and e.attr == buf and isinstance(e.value, ast.Name) and e.value.id == selfname:
+            return entry
+        if isinstance(e, ast.Name) and e.id in ('True', 'False', 'None'):
+            return NotImplemented
+        if isinstance(e, ast.Call) and norm(e.func) in ('b1', 'Bits1', 'bool', 'int') and len(e.args) == 1 and not e.keywords:
+            return NotImplemented
+        if isinstance(e, (ast.Attribute, ast.Name, ast.Subscript, ast.Call)):
+            return atoms[norm(e)]
+        return NotImplemented
+    cast = lambda v: v if isinstance(v, BV) else BV(1 if v else 0, 1)
+    ev = Evaluator({}, arith=True, leaf=leaf, funcs={'b1': cast, 'Bits1': cast, 'bool': lambda v: bool(v), 'int': lambda v: int(bool(v))})
+    try:
+        return ev.ev(expr)
+    except TypeError as ex:
+        raise AnalysisError(f"test expression outside the buffer model: {norm(expr)} ({ex})")
+
+
+def _buf_atoms(expr, selfname, buf):
+    out = []
+
+    def walk(e):
+        if isinstance(e, ast.Attribute) and e.attr == buf and isinstance(e.value, ast.Name) and e.value.id == selfname:
+            return
+        if isinstance(e, ast.Name) and e.id in ('True', 'False', 'None'):
+            return
+        if isinstance(e, ast.Call) and norm(e.func) in ('b1', 'Bits1', 'bool', 'int') and len(e.args) == 1 and not e.keywords:
+            walk(e.args[0])
+            return
+        if isinstance(e, (ast.Attribute, ast.Name, ast.Subscript, ast.Call)):
+            if norm(e) not in out:
+                out.append(norm(e))
+            return
+        for ch in ast.iter_child_nodes(e):
+            walk(ch)
+    walk(expr)
+    return out
+
+
+def _mentions(e, selfname, buf):
+    return any(isinstance(n, ast.Attribute) and n.attr == buf and isinstance(n.value, ast.Name) and n.value.id == selfname
+               for n in ast.walk(e))
+
+
+def _valuations(names):
+    for vals in itertools.product((0, 1), repeat=len(names)):
+        yield {k: BV(v, 1) for k, v in zip(names, vals)}
+
+
+def _buffer_check(r, m, only=None):
+    for cname in sorted(m.classes):
+        if only is not None and cname not in only:
+            continue
+        meths = m.methods(cname)
+        con = meths.get('construct')
+        if con is None or not con.args.args:
+            continue
+        me = con.args.args[0].arg
+        inits = {t.attr for st in con.body if isinstance(st, ast.Assign) and _is_none(st.value)
+                 for t in st.targets if isinstance(t, ast.Attribute) and norm(t.value) == me}
+        blocks = [fn for fn in con.body if isinstance(fn, ast.FunctionDef)]
+        funcs = [(f, f.args.args[0].arg, 'method') for n, f in meths.items() if n != 'construct' and f.args.args] + \
+                [(b, me, 'block') for b in blocks]
+
+        def stores(buf, clear):
+            out = []
+            for f, sn, kind in funcs:
+                for st in walk_no_nested(f):
+                    if isinstance(st, ast.Assign) and _is_none(st.value) == clear and any(
+                            isinstance(t, ast.Attribute) and t.attr == buf and norm(t.value) == sn for t in st.targets):
+                        out.append((f, sn, kind, st))
+            return out
+        for buf in sorted(inits):
+            sts = stores(buf, False)
+            delivered = any(_mentions(n, sn, buf) for f, sn, kind in funcs if f.name not in ('line_trace', '__str__')
+                            for n in walk_no_nested(f)
+                            if (isinstance(n, ast.Return) and n.value is not None) or
+                            (isinstance(n, (ast.Assign, ast.AugAssign)) and not _is_none(n.value) and
+                             not any(isinstance(t, ast.Attribute) and t.attr == buf for t in
+                                     (n.targets if isinstance(n, ast.Assign) else [n.target]))))
+            if not sts or not delivered:
+                continue        # a trace variable, not a message buffer
+            where = lambda f, kind: f"{cname}.{f.name}" if kind == 'method' else f"{cname}.construct.{f.name}"
+            # -- B1: every test of the buffer is independent of the stored message's value (`is None`, not truthiness)
+            tests = []
+            for f, sn, kind in funcs:
+                if f.name in ('line_trace', '__str__'):
+                    continue
+                for d in f.decorator_list:
+                    if isinstance(d, ast.Call) and norm(d.func) == 'non_blocking' and d.args and isinstance(d.args[0], ast.Lambda) \
+                            and d.args[0].args.args:
+                        tests.append((f, d.args[0].args.args[0].arg, kind, d.args[0].body))
+                for n in walk_no_nested(f):
+                    if isinstance(n, (ast.If, ast.While, ast.IfExp, ast.Assert)):
+                        tests.append((f, sn, kind, n.test))
+                    elif isinstance(n, (ast.Assign, ast.AugAssign)) and isinstance(n.value, (ast.Compare, ast.BoolOp, ast.UnaryOp, ast.BinOp)):
+                        tests.append((f, sn, kind, n.value))
+            for f, sn, kind, e in tests:
+                if not _mentions(e, sn, buf):
+                    continue
+                names = _buf_atoms(e, sn, buf)
+                if len(names) > 6:
+                    raise AnalysisError(f"{where(f, kind)}: test with too many atoms: {norm(e)[:60]}")
+                bad = None
+                for at in _valuations(names):
+                    r.evaluations += 2
+                    a, b = (bool(_buf_eval(e, sn, buf, full, at)) for full in FULLS)
+                    if a != b:
+                        bad = at
+                cons = f"test of s.{buf}: {norm(e)}"
+                if bad is not None:
+                    r.bad(m, where(f, kind), cons, "the test treats a stored message of value 0 like an empty buffer (its result "
+                          "depends on the truth value of the message): emptiness must be tested with `is None` / `is not None`",
+                          e.lineno)
+                else:
+                    r.ok(m, where(f, kind), cons)
+            # -- B2: a message is stored only into an empty buffer
+            rdy_of = {}     # interface path -> rdy expression driven by this class
+            en_of = {}      # signal path -> list of (guards, value) of @= assignments in the update blocks
+            for b in blocks:
+                for n in walk_no_nested(b):
+                    if isinstance(n, ast.AugAssign) and isinstance(n.op, ast.MatMult):
+                        t = norm(n.target)
+                        en_of.setdefault(t, []).append((b, n))
+                        if t.endswith('.rdy'):
+                            rdy_of[t[:-4]] = n.value
+            for f, sn, kind, st in sts:
+                cons = f"store {norm(st)}"
+                w = where(f, kind)
+                if kind == 'method':
+                    guard = None
+                    for d in f.decorator_list:
+                        if isinstance(d, ast.Call) and norm(d.func) == 'non_blocking' and d.args and isinstance(d.args[0], ast.Lambda) \
+                                and d.args[0].args.args:
+                            guard = d.args[0]
+                    if guard is not None:
+                        gs, gb = guard.args.args[0].arg, guard.body
+                        names = _buf_atoms(gb, gs, buf)
+                        msg = None
+                        for at in _valuations(names):
+                            r.evaluations += 3
+                            if not bool(_buf_eval(gb, gs, buf, None, at)) and not names:
+                                msg = "the method is never ready although the buffer is empty"
+                            for full in FULLS:
+                                if bool(_buf_eval(gb, gs, buf, full, at)):
+                                    msg = (f"the rdy guard `{norm(gb)}` is true while the buffer holds a {full!r}: the pending "
+                                           "message is overwritten")
+                        (r.bad(m, w, cons, msg, st.lineno) if msg else r.ok(m, w, cons + f" under rdy guard {norm(gb)}"))
+                        continue
+                    # blocking method: the store must directly follow a wait loop that exits only when the buffer is empty
+                    msg = "the store is not preceded by a `while <buffer not empty>: <yield>` loop: a pending message is overwritten"
+                    for prev in reversed(preceding_stmts(st)):
+                        has_yield = any(isinstance(n, ast.Call) and isinstance(n.func, ast.Attribute) and n.func.attr == 'switch'
+                                        for n in ast.walk(prev))
+                        has_store = any(isinstance(n, ast.Assign) and any(isinstance(t, ast.Attribute) and t.attr == buf for t in n.targets)
+                                        for n in ast.walk(prev))
+                        if not (has_yield or has_store):
+                            continue
+                        if isinstance(prev, ast.While) and has_yield and not has_store and not prev.orelse and \
+                                not any(isinstance(n, ast.Break) for n in ast.walk(prev)):
+                            names = _buf_atoms(prev.test, sn, buf)
+                            okw = True
+                            for at in _valuations(names):
+                                r.evaluations += 3
+                                okw = okw and not bool(_buf_eval(prev.test, sn, buf, None, at)) and \
+                                    all(bool(_buf_eval(prev.test, sn, buf, full, at)) for full in FULLS)
+                            msg = None if okw else f"the wait loop `while {norm(prev.test)}` does not wait exactly while the buffer is full"
+                        elif has_yield:
+                            msg = f"the wait `{norm(prev)[:50]}...` is not a loop: after the yield the buffer is not re-checked and a " \
+                                  f"still pending message is overwritten"
+                        else:
+                            msg = "the buffer is written twice in a row"
+                        break
+                    (r.bad(m, w, cons, msg, st.lineno) if msg else r.ok(m, w, cons + " after a wait-until-empty loop"))
+                    continue
+                # update block: dominating conditions (+ what en implies) must imply that the buffer is empty
+                prevs = preceding_stmts(st)
+                if any(isinstance(p_, ast.Assign) and _is_none(p_.value) and any(isinstance(t, ast.Attribute) and t.attr == buf
+                                                                                for t in p_.targets) for p_ in prevs):
+                    r.ok(m, w, cons, nontrivial=False, note="buffer cleared earlier in the same block (see the clear clause)")
+                    continue
+                gl = [(g.test, g.polarity) for g in guards_of(st) if g.kind in ('if', 'exit', 'assert')]
+                facts = []      # implications  atom -> expr
+                for gtest, pol in gl:
+                    for n in ast.walk(gtest):
+                        t = norm(n) if isinstance(n, ast.Attribute) else None
+                        if t and t.endswith('.en'):
+                            if t[:-3] in rdy_of:
+                                facts.append((t, [([], rdy_of[t[:-3]])]))       # protocol: en only when the rdy we drive
+                            elif t in en_of:
+                                alts = []
+                                for b, asg in en_of[t]:
+                                    v = asg.value
+                                    zero = (isinstance(v, ast.Constant) and not v.value) or \
+                                        (isinstance(v, ast.Call) and len(v.args) == 1 and isinstance(v.args[0], ast.Constant) and not v.args[0].value)
+                                    if not zero:
+                                        alts.append(([(g.test, g.polarity) for g in guards_of(asg) if g.kind in ('if', 'exit')], v))
+                                facts.append((t, alts))
+                exprs = [g for g, _ in gl] + [x for _, alts in facts for gs, v in alts for x in [v] + [g for g, _ in gs]]
+                names = []
+                for e in exprs:
+                    for a in _buf_atoms(e, me, buf):
+                        if a not in names:
+                            names.append(a)
+                for t, _ in facts:
+                    if t not in names:
+                        names.append(t)
+                if len(names) > 8:
+                    raise AnalysisError(f"{w}: too many atoms around {norm(st)}")
+                msg, sat = None, False
+                for at in _valuations(names):
+                    for entry in (None,) + FULLS:
+                        r.evaluations += 1
+                        if not all(bool(_buf_eval(g, me, buf, entry, at)) == pol for g, pol in gl):
+                            continue
+                        consistent = True
+                        for t, alts in facts:
+                            if bool(at[t]) and not any(all(bool(_buf_eval(g, me, buf, entry, at)) == pol for g, pol in gs)
+                                                       and bool(_buf_eval(v, me, buf, entry, at)) for gs, v in alts):
+                                consistent = False
+                        if not consistent:
+                            continue
+                        sat = True
+                        if entry is not None and msg is None:
+                            msg = f"the message is captured under `{' and '.join(('' if pol else 'not ') + '(' + norm(g) + ')' for g, pol in gl) or 'no condition'}`" \
+                                  f", which can hold while the buffer is full ({entry!r}): the pending message is overwritten"
+                if not sat:
+                    raise AnalysisError(f"{w}: the capture condition of {norm(st)} is unsatisfiable in the model")
+                (r.bad(m, w, cons, msg, st.lineno) if msg else r.ok(m, w, cons + " only while the buffer is empty"))
+            # -- B3: the rdy this class drives from the buffer equals "buffer empty"
+            for ifc, e in sorted(rdy_of.items()):
+                if not _mentions(e, me, buf):
+                    continue
+                names = _buf_atoms(e, me, buf)
+                msg = None
+                for at in _valuations(names):
+                    r.evaluations += 3
+                    if not names and not bool(_buf_eval(e, me, buf, None, at)):
+                        msg = "rdy is low although the buffer is empty"
+                    for full in FULLS:
+                        if bool(_buf_eval(e, me, buf, full, at)):
+                            msg = f"rdy `{norm(e)}` is high while the buffer holds a {full!r}: the sender is told to overwrite it"
+                cons = f"{ifc}.rdy @= {norm(e)}"
+                (r.bad(m, f"{cname}.construct", cons, msg, e.lineno) if msg else r.ok(m, f"{cname}.construct", cons))
+            # -- B4: the buffer is cleared only on delivery (a clear at the top level of an update block drops the message)
+            for f, sn, kind, st in stores(buf, True):
+                if kind != 'block':
+                    continue
+                if not [g for g in guards_of(st) if g.kind in ('if', 'exit')]:
+                    r.bad(m, where(f, kind), f"clear {norm(st)}", "the buffer is cleared unconditionally in an update block: a "
+                          "message that was stored but not yet taken is dropped", st.lineno)
+                else:
+                    r.ok(m, where(f, kind), f"clear {norm(st)} under a condition")
+
+
+def _adapter_wellformed(r, repo, m, only=None):
+    """the adapter can be built and run at all: every port it uses on one of its RTL interfaces exists in that
+    interface, every function it calls is defined (imported) in its module"""
+    import builtins
+    elab = Elaborator(repo)
+    for cname in sorted(m.classes):
+        if only is not None and cname not in only:
+            continue
+        meths = m.methods(cname)
+        con = meths.get('construct')
+        if con is None or not con.args.args:
+            continue
+        me = con.args.args[0].arg
+        funcs = [(f, f.args.args[0].arg) for n, f in meths.items() if f.args.args and n != 'construct'] + \
+                [(b, me) for b in con.body if isinstance(b, ast.FunctionDef)] + [(con, me)]
+        # -- ports of the RTL interfaces the class declares
+        ports = {}
+        for st in con.body:
+            if isinstance(st, ast.Assign) and isinstance(st.value, ast.Call) and isinstance(st.value.func, ast.Name):
+                rr = repo.resolve(m, st.value.func.id)
+                if rr is None or not isinstance(rr[1], ast.ClassDef):
+                    continue
+                try:
+                    if elab.kind_of(rr[0], rr[1]) != 'ifc':
+                        continue
+                    from sa.c17_util import Netlist
+                    inst = elab.instantiate(Netlist(), ClassRef(rr[0], rr[1]), [D] * len(st.value.args),
+                                            {k.arg: D for k in st.value.keywords if k.arg})
+                except (AnalysisError, ModelFault):
+                    continue
+                sigs = {k for k, v in inst.attrs.items() if isinstance(v, Sig)}
+                if not sigs:
+                    continue
+                for t in st.targets:
+                    if isinstance(t, ast.Attribute) and norm(t.value) == me:
+                        ports[t.attr] = (rr[1].name, set(inst.attrs))
+        for f, sn in funcs:
+            for n in walk_no_nested(f):
+                if isinstance(n, ast.Attribute) and isinstance(n.value, ast.Attribute) and isinstance(n.value.value, ast.Name) \
+                        and n.value.value.id == sn and n.value.attr in ports:
+                    iname, have = ports[n.value.attr]
+                    w = f"{cname}.{f.name}" if f in meths.values() and f is not con else f"{cname}.construct" + ('' if f is con else '.' + f.name)
+                    if n.attr in have or n.attr in ('line_trace',):
+                        r.ok(m, w, f"port {norm(n)}", nontrivial=False)
+                    else:
+                        r.bad(m, w, f"port {norm(n)}", f"{iname} has no port `{n.attr}` (it has {sorted(k for k in have if not k[0].isupper())}): "
+                              f"the adapter cannot be elaborated", n.lineno)
+        # -- called functions are defined (tracing helpers are reported as an observation only)
+        for f, sn in funcs:
+            local = {a.arg for a in f.args.args + f.args.kwonlyargs} | \
+                {n.id for n in ast.walk(f) if isinstance(n, ast.Name) and isinstance(n.ctx, ast.Store)} | \
+                {x.name for x in ast.walk(f) if isinstance(x, ast.FunctionDef)}
+            if f is not con:
+                local |= {a.arg for a in con.args.args} | {n.id for n in walk_no_nested(con) if isinstance(n, ast.Name) and isinstance(n.ctx, ast.Store)}
+            for n in walk_no_nested(f):
+                if isinstance(n, ast.Call) and isinstance(n.func, ast.Name):
+                    nm = n.func.id
+                    if nm in local or hasattr(builtins, nm) or re.match(r'^(b|Bits)[0-9]+$', nm) or nm in m.imports \
+                            or repo.resolve(m, nm) is not None:
+                        continue
+                    w = f"{cname}.{f.name}" if f is not con and f in meths.values() else f"{cname}.construct" + ('' if f is con else '.' + f.name)
+                    if f.name in ('line_trace', '__str__'):
+                        r.observations.append(f"{m.rel}: {w} calls `{nm}`, which is neither defined nor imported (NameError when tracing)")
+                        continue
+                    r.bad(m, w, f"call of {nm}", f"`{nm}` is neither defined nor imported in {m.rel}: NameError when the adapter "
+                          f"handles its first message", n.lineno)
+
+
+def rule_buffer(repo):
+    r = RuleResult('R-C17-buffer', "one-entry message buffers of the CL/FL/RTL adapters (send_recv_ifcs.py, get_give_ifcs.py, "
+                                   "stream/queue_adapters.py, stream/fl.py): emptiness is tested with `is None` (never by truth "
+                                   "value), a message is stored only into an empty buffer (rdy guard of non-blocking methods, "
+                                   "wait-until-empty loop in blocking methods, capture condition of update blocks incl. what en "
+                                   "implies), the rdy driven from the buffer equals `empty`, no unconditional clear")
+    probe = RuleResult('probe', '')
+    _buffer_check(probe, Module(repo, 'c17_embedded_buffer_probe_.py', _BUFFER_PROBE))
+    got = sorted({f.func.split('.')[-1] + ':' + f.construct.split(' ')[0] for f in probe.findings})
+    for want in ('enq:test', 'enq:store', 'push:store', 'up_msg:store', 'construct:s.recv.rdy'):
+        if want not in got:
+            raise AnalysisError(f"R-C17-buffer: the embedded positive example ({want}) was not flagged (got {got})")
+    wf = RuleResult('probe', '')
+    _adapter_wellformed(wf, repo, Module(repo, SQA, repo.src(SQA).replace('s.recv.msg', 's.recv.ret').replace(
+        'clone_deepcopy( msg )', 'undefined_copy_( msg )')))
+    if not {'port', 'call'} <= {f.construct.split(' ')[0] for f in wf.findings}:
+        raise AnalysisError("R-C17-buffer: the embedded positive example (missing port / undefined function) was not flagged")
+    for rel in BUFFER_FILES:
+        _buffer_check(r, repo.mod(rel))
+        _adapter_wellformed(r, repo, repo.mod(rel))
+    r.require_floor(40)
+    return r
+
+
 def rule_wide(repo):
     """thorough tier: the same equations for the larger capacities 5..8 (controllers and complete n-entry queues)"""
     r = RuleResult('R-C17-wide', "thorough tier: ready/valid, occupancy / pointer updates, delivered message and stored "
@@ -1381,7 +1898,7 @@ def rule_wide(repo):
     return r
 
 
-RULES = [rule_rdy, rule_count, rule_step, rule_siblings, rule_cl, rule_history, rule_copy]
+RULES = [rule_rdy, rule_count, rule_step, rule_siblings, rule_cl, rule_history, rule_copy, rule_connect, rule_buffer]
 THOROUGH_RULES = [rule_wide]
 
 # ---------------------------------------------------------------------------
@@ -1528,6 +2045,20 @@ MUTANTS = [
                  "#-------------------------------------------------------------------------\n# NormalQueueCL", count=1)]),
     _m('cl-normal-enq-no-copy', CLQ, "  @non_blocking( lambda s: s.enq_rdy )\n  def enq( s, msg ):\n    s.queue.appendleft( clone_deepcopy( msg ) )",
        "  @non_blocking( lambda s: s.enq_rdy )\n  def enq( s, msg ):\n    s.queue.appendleft( msg )", 'R-C17-copy'),
+    # -- adapters through which queues are chained / driven from CL and FL code (round 4 of seeded bugs)
+    _m('adapter-and-ignores-receiver-rdy', GGI, "        m.in1, other.rdy,", "        m.in1, s.rdy,", 'R-C17-connect'),
+    _m('adapter-and-enable-only-giver', GGI, "        m.out, other.en,", "        m.in0, other.en,", 'R-C17-connect'),
+    _m('adapter-sendq-guard-truthiness', SQA, "@non_blocking( lambda s: s.entry is None )", "@non_blocking( lambda s: not s.entry )", 'R-C17-buffer'),
+    _m('adapter-recvfl2sendrtl-waits-once', SRI, "    while s.entry is not None:\n      greenlet.getcurrent().parent.switch(0)\n    s.entry = clone_deepcopy( msg )",
+       "    if s.entry is not None:\n      greenlet.getcurrent().parent.switch(0)\n    s.entry = clone_deepcopy( msg )", 'R-C17-buffer'),
+    _m('adapter-recvq-captures-while-full', SQA, "      if (s.entry is None) & s.recv.val:", "      if s.recv.val:", 'R-C17-buffer'),
+    _m('adapter-recvq-rdy-inverted', SQA, "      s.recv.rdy @= (s.entry is None)", "      s.recv.rdy @= (s.entry is not None)", 'R-C17-buffer'),
+    _m('adapter-recvcl2sendrtl-guard-dropped', SRI, "  @non_blocking( lambda s : s.entry is None )\n  def recv( s, msg ):",
+       "  @non_blocking( lambda s : True )\n  def recv( s, msg ):", 'R-C17-buffer'),
+    _m('adapter-fl-sendq-no-wait', SFL, "    while s.entry is not None:\n      greenlet.getcurrent().parent.switch(0)\n\n    s.entry = clone_deepcopy(msg)",
+       "    s.entry = clone_deepcopy(msg)", 'R-C17-buffer'),
+    _m('adapter-fl-recvq-captures-while-full', SFL, "      if (s.entry is None) & s.recv.val:", "      if s.recv.val:", 'R-C17-buffer'),
+    _m('adapter-getrtl2givecl-en-while-full', GGI, "      if s.entry is None and s.get.rdy:", "      if s.get.rdy:", 'R-C17-buffer'),
     # -- stdlib/queues/cl_queues.py
     _m('cl-pipe-enq-guard-le', CLQ, "lambda s: len( s.queue ) < s.queue.maxlen", "lambda s: len( s.queue ) <= s.queue.maxlen",
        'R-C17-cl', 'first'),
@@ -1588,11 +2119,23 @@ EQUIV = [
                  "#-------------------------------------------------------------------------\n# Dpath and Ctrl for NormalQueueRTL", count=1),
         dict(file=Q, old="    s.last_idx    = PtrType  ( num_entries-1 )\n    s.num_entries = CountType( num_entries   )\n",
              new="    s.last_idx, s.num_entries = _mk_ctrl_consts( PtrType, CountType, num_entries )\n", count=3)]),
+    _m('adapter-emptiness-as-eq-none', SQA, "@non_blocking( lambda s: s.entry is None )", "@non_blocking( lambda s: s.entry == None )"),
+    _m('adapter-capture-guard-nested', SQA, "      if (s.entry is None) & s.recv.val:\n        s.entry = clone_deepcopy( s.recv.msg )",
+       "      if s.recv.val:\n        if s.entry is None:\n          s.entry = clone_deepcopy( s.recv.msg )"),
+    _m('adapter-wait-loop-negated-form', SRI, "    while s.entry is not None:\n      greenlet.getcurrent().parent.switch(0)\n    s.entry = clone_deepcopy( msg )",
+       "    while not (s.entry is None):\n      greenlet.getcurrent().parent.switch(0)\n    s.entry = clone_deepcopy( msg )"),
+    _m('adapter-and-inputs-swapped', GGI, "        m.in0, s.rdy,\n        m.in1, other.rdy,", "        m.in1, s.rdy,\n        m.in0, other.rdy,"),
+    _m('adapter-send-branches-swapped', SRI, "      if s.entry is None:\n        s.send.en  @= b1( 0 )\n      else:\n        s.send.en  @= b1( s.send.rdy )\n        s.send.msg @= s.entry",
+       "      if s.entry is not None:\n        s.send.en  @= b1( s.send.rdy )\n        s.send.msg @= s.entry\n      else:\n        s.send.en  @= b1( 0 )"),
     _m('adapter-copy-via-clone-method', SRI, "s.entry = clone_deepcopy( msg )", "s.entry = msg.clone()", None, 'first'),
-    _m('adapter-copy-via-deepcopy', GGI, "    s.entry = clone_deepcopy( msg )", "    s.entry = deepcopy( msg )"),
+    dict(name='adapter-copy-via-deepcopy', edits=[
+        dict(file=GGI, old="import greenlet\n", new="import greenlet\nfrom copy import deepcopy\n", count=1),
+        dict(file=GGI, old="    s.entry = clone_deepcopy( msg )", new="    s.entry = deepcopy( msg )", count=1)]),
     _m('cl-copy-via-local', CLQ, "    s.queue.appendleft( clone_deepcopy( msg ) )", "    m = msg.clone()\n    s.queue.appendleft( m )", None, 'first'),
-    _m('cl-copy-via-deepcopy', CLQ, "  @non_blocking( lambda s: s.enq_rdy )\n  def enq( s, msg ):\n    s.queue.appendleft( clone_deepcopy( msg ) )",
-       "  @non_blocking( lambda s: s.enq_rdy )\n  def enq( s, msg ):\n    s.queue.appendleft( copy.deepcopy( msg ) )"),
+    dict(name='cl-copy-via-deepcopy', edits=[
+        dict(file=CLQ, old="from collections import deque\n", new="import copy\nfrom collections import deque\n", count=1),
+        dict(file=CLQ, old="  @non_blocking( lambda s: s.enq_rdy )\n  def enq( s, msg ):\n    s.queue.appendleft( clone_deepcopy( msg ) )",
+             new="  @non_blocking( lambda s: s.enq_rdy )\n  def enq( s, msg ):\n    s.queue.appendleft( copy.deepcopy( msg ) )", count=1)]),
     _m('st-not-full-as-ne', ST, "s.recv_rdy  //= lambda: s.count < num_entries", "s.recv_rdy  //= lambda: s.count != num_entries"),
     _m('st-1entry-reset-last', ST,
        "      if s.reset:\n        s.full <<= 0\n      else:\n        s.full <<= (s.recv.val & ~s.full) | (s.full & ~s.send.rdy)\n",
